@@ -63,7 +63,7 @@ def gen_history(r, maxlen):
                 x = r.choice([0.0, 1.0, 0.5])
             else:
                 x = 1.0 - r.random() * 4e-9
-            ops.append(["image", x.hex() if isinstance(x, float) else float(x).hex(), r.random() < 0.5])
+            ops.append(["image", x.hex() if isinstance(x, float) else float(x).hex(), r.choice([False, True, "arr0"])])
         elif u < 0.7:
             kind = "inverse" if r.random() < 0.6 else "preimages"
             v = r.random()
@@ -103,8 +103,10 @@ def run_history(h, maxviol=3):
     kinds = {}
     buf = [None, None]
 
+    args0 = []      # 0-d array arguments of earlier GetImage calls: watched like the held arrays, never written by the caller
+
     def check_held(step, opname):
-        for hd in held:
+        for hd in held + args0:
             if hd.arr.tobytes() != hd.snap:
                 viol.append({"what": f"array ({hd.role}, from step {hd.step}) changed by a later call",
                              "step": step, "op": opname, "now": oc.lst(hd.arr),
@@ -115,8 +117,13 @@ def run_history(h, maxviol=3):
         k = op[0]
         if k == "image":
             x = float.fromhex(op[1])
-            arg = np.float64(x) if op[2] else x
+            # the coordinate as a Python float, a numpy scalar, or a 0-d ndarray (a mutable object: it must come back unchanged)
+            arg = np.array(x) if op[2] == "arr0" else (np.float64(x) if op[2] else x)
             y = ev.GetImage(arg)
+            if op[2] == "arr0":
+                if float(arg) != x:
+                    viol.append({"what": "GetImage modified its argument (a 0-d ndarray)", "step": step, "x": op[1], "after": float(arg).hex()})
+                args0.append(_Held(arg, "0-d array argument of GetImage", step))
             want = _fresh(cfg_lo, cfg_hi, n, m).GetImage(x)
             kinds["image"] = kinds.get("image", 0) + 1
             if not isinstance(y, np.ndarray) or y.shape != want.shape or y.tobytes() != want.tobytes():
